@@ -4,6 +4,8 @@ import (
 	"go/ast"
 	"go/token"
 	"go/types"
+
+	"github.com/gopherjs/gopherjs/compiler/astutil"
 )
 
 func EscapingObjects(n ast.Node, info *types.Info) []*types.Var {
@@ -30,8 +32,27 @@ func (v *escapeAnalysis) Visit(node ast.Node) (w ast.Visitor) {
 	switch n := node.(type) {
 	case *ast.UnaryExpr:
 		if n.Op == token.AND {
-			if _, ok := n.X.(*ast.Ident); ok {
+			if _, ok := astutil.RemoveParens(n.X).(*ast.Ident); ok {
 				return &escapingObjectCollector{v}
+			}
+		}
+	case *ast.SelectorExpr:
+		// x.M with a pointer-receiver method M and an addressable variable x that is not a pointer itself
+		// stands for (&x).M: in a call, a method value, a defer or a go statement. The pointer to a variable
+		// of a named non-struct, non-array type is a getter/setter pair over the variable.
+		if sel, ok := v.info.Selections[n]; ok && sel.Kind() == types.MethodVal {
+			if _, ok := astutil.RemoveParens(n.X).(*ast.Ident); ok {
+				_, ptrRecv := sel.Obj().Type().(*types.Signature).Recv().Type().(*types.Pointer)
+				needsPointer := false
+				switch sel.Recv().Underlying().(type) {
+				case *types.Pointer, *types.Struct, *types.Array:
+					// Already a pointer, or a value that is its own pointer in the generated code.
+				default:
+					needsPointer = true
+				}
+				if ptrRecv && needsPointer {
+					return &escapingObjectCollector{v}
+				}
 			}
 		}
 	case *ast.FuncLit:
